@@ -15,7 +15,7 @@ if of_01.deferredSender is None:
   of_01.DeferredSender.start = lambda self: None
   of_01.deferredSender = of_01.DeferredSender()
 
-LENS = dict(h8=8, e9=9, c12=12, m16=16, f72=72, f88=88, p64=64, big=1518, b2040=2040, b2047=2047,
+LENS = dict(huge=40000, max=65535, h8=8, e9=9, c12=12, m16=16, f72=72, f88=88, p64=64, big=1518, b2040=2040, b2047=2047,
             b2048=2048, b2049=2049, b2056=2056)
 MAC = "00:00:00:00:00:07"
 
@@ -26,6 +26,7 @@ def payload(n, salt):
 
 def build(side, kind, xid):
   n = LENS[kind]
+  side = "sw" if side == "swloop" else side
   if side == "ctl":       # switch -> controller messages
     if kind == "h8":
       m = rb.barrier_reply(xid)
@@ -95,6 +96,10 @@ class Adapter(object):
       self.sock = FakeSock()
       self.con = of_01.Connection(self.sock)
       self.con.handlers = [self._rec_ctl] * 64
+    elif side == "swloop":
+      # the whole switch-side receive path: RecocoIOLoop.run -> _do_recv (-> _try_connect) -> OFConnection.read
+      from harness import c10_loops
+      self.lp = c10_loops.SwitchLoop(["A"], connecting=True)
     else:
       self.worker = IOWorker()
       self.worker.socket = FakeSock()
@@ -116,7 +121,13 @@ class Adapter(object):
     chunk = self.stream[self.off:self.off + k]
     self.off += k
     self.got = []
-    if self.side == "ctl":
+    if self.side == "swloop":
+      o = self.lp.feed("A", chunk)
+      if not o["alive"] or o["diverged"]:
+        return {"loop": o["died"]}
+      self.got = o["new"]["A"]
+      resid = o["residual"]["A"]
+    elif self.side == "ctl":
       self.sock.pending = chunk
       r = self.con.read()
       if r is False:
@@ -141,6 +152,10 @@ class Adapter(object):
         return {"corrupted_delivery": [t, xid]}
       new.append(xid)
     return {"new": new, "residual": resid}
+
+  def close(self):
+    if self.side == "swloop":
+      self.lp.close()
 
   def signature(self, st, obs):
     sig = {"action": st["a"], "side": self.side}
